@@ -3879,7 +3879,7 @@ func blockReaches(a, b *ssa.BasicBlock) bool {
 
 func init() {
 	register(&Rule{Name: "LINT-FILLALL", Floor: 5, Run: ruleFillAll, Fixture: "fixture.elementSkippedWithoutStore",
-		Doc: "a loop that fills a list made with one place per element of what it ranges over fills a place on every way round: no path from the loop's body back to its head avoids all stores into that list (an element left at its zero value is an attribute, a qualifier or a name dropped from the certificate)"})
+		Doc: "a loop that fills a list made with one place per element of what it ranges over (or made empty with room for one entry per element and appended to) fills a place on every way round: no path from the loop's body back to its head avoids all stores into that list (an element left at its zero value is an attribute, a qualifier or a name dropped from the certificate)"})
 }
 
 // ruleFillAll: out := make([]T, len(in)); for i := range in { … out[f(i)] = … }. Every back edge is reached only through
@@ -3973,7 +3973,72 @@ func ruleFillAll(c *Ctx, r *Rep) {
 					storeBlocks[mk][b] = true
 				}
 			}
+			// likewise a list made empty with room for one entry per element (make(T, 0, len(in))) and appended to
+			for b := range body {
+				for _, ins := range b.Instrs {
+					call, ok := ins.(*ssa.Call)
+					if !ok || len(call.Call.Args) == 0 {
+						continue
+					}
+					if bi, isB := call.Call.Value.(*ssa.Builtin); !isB || bi.Name() != "append" {
+						continue
+					}
+					// the list appended to: back through joins and earlier appends to where it was made
+					var mk *ssa.MakeSlice
+					seenV := map[ssa.Value]bool{}
+					work := []ssa.Value{call.Call.Args[0]}
+					for len(work) > 0 {
+						v := work[len(work)-1]
+						work = work[:len(work)-1]
+						if seenV[v] {
+							continue
+						}
+						seenV[v] = true
+						switch x := v.(type) {
+						case *ssa.MakeSlice:
+							mk = x
+						case *ssa.Phi:
+							work = append(work, x.Edges...)
+						case *ssa.Call:
+							if bi, isB := x.Call.Value.(*ssa.Builtin); isB && bi.Name() == "append" && len(x.Call.Args) > 0 {
+								work = append(work, x.Call.Args[0])
+							}
+						}
+					}
+					if mk == nil || body[mk.Block()] {
+						continue
+					}
+					// an append inside an inner loop is that loop's business (one entry per outer element is then a matter
+					// of what the inner loop finds)
+					nested := false
+					for h2, body2 := range loops {
+						if h2 != h && body[h2] && body2[b] {
+							nested = true
+						}
+					}
+					if nested {
+						continue
+					}
+					if k, isK := mk.Len.(*ssa.Const); !isK || k.Value == nil || k.Int64() != 0 {
+						continue
+					}
+					of, k, ok := lenPlus(mk.Cap)
+					if !ok || k != 0 || !(of == in || sameLoad(of, in) || sameFieldLoad(of, in)) {
+						continue
+					}
+					filled[mk] = true
+					if storeBlocks[mk] == nil {
+						storeBlocks[mk] = map[*ssa.BasicBlock]bool{}
+					}
+					storeBlocks[mk][b] = true
+				}
+			}
+			var outs []ssa.Value
 			for out := range filled {
+				outs = append(outs, out)
+			}
+			sort.Slice(outs, func(i, j int) bool { return outs[i].Pos() < outs[j].Pos() })
+			for _, out := range outs {
 				// from the body's entry, can the head be reached again without passing a storing block?
 				var entry *ssa.BasicBlock
 				for _, sc := range h.Succs {
